@@ -17,6 +17,81 @@ EXPLANATION = (
 NOT_DECIDED = ["that Bevy's System keeps Locals across run_unsafe calls (trusted)"]
 
 
+def _check_rwc(ctx, prog, m, depth=0):
+    """C13.b for one run_with_cleanup function. If the taken state is matched inside a crate-local callee (e.g. an
+    extraction helper such as `take_initialized`), the callee is inlined at that call site and the rule is evaluated on
+    the inlined body: inlining preserves semantics, so the rule holds for the program if it holds there."""
+    ctx.touch(m, calls=len(list(m.iter_calls())))
+    fk = lib.fkey(m)
+    takes = [b for b, t, fr in m.iter_calls() if fr and lib.tail(mir.fn_name(fr), 2) in ("mem::take", "mem::replace") and lib.originates_from_arg(m, t["args"][0], 1)]
+    if not ctx.check(len(takes) == 1, "C13.b", "%s:takes-self-once" % fk, "%s:%d" % (m.file, m.line), "", "self is taken %d times" % len(takes)):
+        return
+    tb = takes[0]
+    dest = m.blocks[tb]["term"]["dest"]["l"]
+    aliases = {dest}     # whole-value moves of the taken state (parameter binding of an inlined callee)
+    grew = True
+    while grew:
+        grew = False
+        for b_, i_, s_ in m.iter_stmts():
+            if s_["k"] == "assign" and not s_["place"]["p"] and "use" in s_["rv"]:
+                p_ = op_place(s_["rv"]["use"])
+                if p_ and not p_["p"] and p_["l"] in aliases and s_["place"]["l"] not in aliases:
+                    aliases.add(s_["place"]["l"])
+                    grew = True
+    sw = [sb for sb, pl, tg, ow in lib.discr_switches(m) if pl["l"] in aliases and not pl["p"]]
+    if not sw:
+        # the state may be matched by a crate-local callee that receives the taken value (an extraction helper)
+        if depth < 2:
+            import inline
+            for b, t, fr in m.iter_calls():
+                if fr is None or b == tb or not t["args"] or prog.resolve_local(fr) is None:
+                    continue
+                if any(lib.originates_from_call(m, a, tb) for a in t["args"]):
+                    m2 = inline.inline_at(prog, m, b)
+                    if m2 is not None:
+                        ctx.notes.append("C13.b: %s matches the taken state inside %s; evaluated on the body with that call inlined" % (fk, lib.tail(mir.fn_name(fr), 2)))
+                        return _check_rwc(ctx, prog, m2, depth + 1)
+        ctx.fail("C13.b", "%s:anchor-lost:state-match" % fk, m.loc(tb), "taken state is not matched")
+        return
+    arms, ow, adt = lib.enum_arms(m, prog, sw[0])
+    inits = [b for b, t, fr in m.iter_calls() if fr and lib.tail(mir.fn_name(fr), 2) == "System::initialize"]
+    for b in inits:
+        ctx.check("New" in arms and m.dominates(arms["New"], b), "C13.b", "%s:initialize-only-on-New" % fk, m.loc(b),
+                  "initialize is on the New arm", "System::initialize is called outside the New arm (an initialized system would be reset)")
+    ctx.check(bool(inits), "C13.b", "%s:New-arm-initializes" % fk, "%s:%d" % (m.file, m.line), "", "the New arm does not initialize the system")
+    # write-backs: assignments to *self
+    wbs = []
+    for b, i, s in m.iter_stmts():
+        if s["k"] == "assign" and s["place"]["l"] == 1 and s["place"]["p"] == ["deref"]:
+            wbs.append((b, i, s["rv"]))
+    good = []
+    for b, i, rv in wbs:
+        src = rv.get("use")
+        ok = False
+        for o in (origins(m, src) if src else ()):
+            if o[0] == "agg":
+                ag = m.blocks[o[1]]["stmts"][o[2]]["rv"]["agg"]
+                if ag.get("vname") == "Initialized":
+                    so = origins(m, ag["ops"][0])
+                    ok = bool(so) and all(x[0] == "call" and x[1] == tb and x[2] in ("@New", "@Initialized") for x in so)
+                elif ag.get("vname") == "New":
+                    ctx.fail("C13.b", "%s:writes-back-New" % fk, m.loc(b, i), "the system is written back as New: it would be re-initialized (state reset) on the next run")
+        if ok:
+            good.append(b)
+        else:
+            ctx.fail("C13.b", "%s:write-back-not-the-taken-system" % fk, m.loc(b, i), "self is overwritten with something other than Initialized(<the taken system>)")
+    for v in ("New", "Initialized"):
+        if v not in arms:
+            ctx.fail("C13.b", "%s:anchor-lost:%s-arm" % (fk, v), m.loc(sw[0]), "no %s arm" % v)
+            continue
+        w = lib.path_to_return_avoiding(m, [arms[v]], good)
+        ctx.check(w is None and bool(good), "C13.b", "%s[%s]:system-written-back" % (fk, v), m.loc(arms[v]),
+                  "every returning path from the %s arm stores Initialized(system) back into self" % v,
+                  "a path from the %s arm returns without storing the system back (its state would be lost)" % v,
+                  lib.render_path(m, w) if w else None)
+
+
+
 def check(ctx):
     ctx.explanation = EXPLANATION
     ctx.not_decided = NOT_DECIDED
@@ -49,53 +124,7 @@ def check(ctx):
     rwc = [b for b in prog.bodies if b.raw.get("name") == "run_with_cleanup" and b.kind == "assoc_fn"]
     ctx.floor("C13.b", len(rwc), 2, "run_with_cleanup functions")
     for m in rwc:
-        ctx.touch(m, calls=len(list(m.iter_calls())))
-        fk = lib.fkey(m)
-        takes = [b for b, t, fr in m.iter_calls() if fr and lib.tail(mir.fn_name(fr), 2) in ("mem::take", "mem::replace") and lib.originates_from_arg(m, t["args"][0], 1)]
-        if not ctx.check(len(takes) == 1, "C13.b", "%s:takes-self-once" % fk, "%s:%d" % (m.file, m.line), "", "self is taken %d times" % len(takes)):
-            continue
-        tb = takes[0]
-        dest = m.blocks[tb]["term"]["dest"]["l"]
-        sw = [sb for sb, pl, tg, ow in lib.discr_switches(m) if pl["l"] == dest and not pl["p"]]
-        if not sw:
-            ctx.fail("C13.b", "%s:anchor-lost:state-match" % fk, m.loc(tb), "taken state is not matched")
-            continue
-        arms, ow, adt = lib.enum_arms(m, prog, sw[0])
-        inits = [b for b, t, fr in m.iter_calls() if fr and lib.tail(mir.fn_name(fr), 2) == "System::initialize"]
-        for b in inits:
-            ctx.check("New" in arms and m.dominates(arms["New"], b), "C13.b", "%s:initialize-only-on-New" % fk, m.loc(b),
-                      "initialize is on the New arm", "System::initialize is called outside the New arm (an initialized system would be reset)")
-        ctx.check(bool(inits), "C13.b", "%s:New-arm-initializes" % fk, "%s:%d" % (m.file, m.line), "", "the New arm does not initialize the system")
-        # write-backs: assignments to *self
-        wbs = []
-        for b, i, s in m.iter_stmts():
-            if s["k"] == "assign" and s["place"]["l"] == 1 and s["place"]["p"] == ["deref"]:
-                wbs.append((b, i, s["rv"]))
-        good = []
-        for b, i, rv in wbs:
-            src = rv.get("use")
-            ok = False
-            for o in (origins(m, src) if src else ()):
-                if o[0] == "agg":
-                    ag = m.blocks[o[1]]["stmts"][o[2]]["rv"]["agg"]
-                    if ag.get("vname") == "Initialized":
-                        so = origins(m, ag["ops"][0])
-                        ok = bool(so) and all(x[0] == "call" and x[1] == tb and x[2] in ("@New", "@Initialized") for x in so)
-                    elif ag.get("vname") == "New":
-                        ctx.fail("C13.b", "%s:writes-back-New" % fk, m.loc(b, i), "the system is written back as New: it would be re-initialized (state reset) on the next run")
-            if ok:
-                good.append(b)
-            else:
-                ctx.fail("C13.b", "%s:write-back-not-the-taken-system" % fk, m.loc(b, i), "self is overwritten with something other than Initialized(<the taken system>)")
-        for v in ("New", "Initialized"):
-            if v not in arms:
-                ctx.fail("C13.b", "%s:anchor-lost:%s-arm" % (fk, v), m.loc(sw[0]), "no %s arm" % v)
-                continue
-            w = lib.path_to_return_avoiding(m, [arms[v]], good)
-            ctx.check(w is None and bool(good), "C13.b", "%s[%s]:system-written-back" % (fk, v), m.loc(arms[v]),
-                      "every returning path from the %s arm stores Initialized(system) back into self" % v,
-                      "a path from the %s arm returns without storing the system back (its state would be lost)" % v,
-                      lib.render_path(m, w) if w else None)
+        _check_rwc(ctx, prog, m)
 
     # ---- C13.c one state per registration ----
     try:
